@@ -593,6 +593,7 @@ pub fn run(op: &str, a: &Args) -> Option<Outcome> {
         ["xpath", "deep"] => Some(crate::ops_seq::xpath_deep(arg(a, "doc"))),
         ["xpath", "deep_inproc"] => Some(crate::ops_seq::xpath_deep_inproc(arg(a, "doc"))),
         ["xpath", "corpus_repeat"] => Some(crate::ops_seq::xpath_corpus_repeat(arg(a, "doc").parse().unwrap_or(0), arg(a, "query"), arg(a, "expected"))),
+        ["names", "accepted"] => Some(crate::ops_seq::names_accepted(arg(a, "position"), arg(a, "name"))),
         ["xpath", "union_algebra"] => Some(crate::ops_seq::xpath_union_algebra(arg(a, "a"), arg(a, "b"))),
         ["xpath", "ctx_series"] => Some(crate::ops_seq::xpath_ctx_series(arg(a, "first"), arg(a, "second"))),
         ["xpath", "corpus_order"] => Some(crate::ops_seq::xpath_corpus_order(arg(a, "doc").parse().unwrap_or(0), arg(a, "query"), arg(a, "expected"))),
@@ -792,6 +793,13 @@ pub fn grid(op: &str, limit: usize) -> (usize, Vec<(Args, Outcome)>) {
                 let (d, q, e) = (it.next().unwrap_or(""), it.next().unwrap_or(""), it.next().unwrap_or(""));
                 let q = crate::ops_more::unescape_line(q);
                 try_one(mk(&[("doc", d), ("query", q.as_str()), ("expected", e)]), &mut n, &mut bad);
+            }
+        }
+        ["names", "accepted"] => {
+            for pos in ["element", "attribute", "pi", "entity"] {
+                for nm in crate::ops_seq::name_candidates() {
+                    try_one(mk(&[("position", pos), ("name", nm.as_str())]), &mut n, &mut bad);
+                }
             }
         }
         ["xpath", "union_algebra"] => {
